@@ -1,3 +1,4 @@
+import datetime
 import io
 
 from collections.abc import Sequence
@@ -24,6 +25,13 @@ from kio.static.primitive import i64
 from kio.static.primitive import u32
 
 
+_epoch = datetime.datetime.fromtimestamp(0, datetime.UTC)
+
+
+def _to_millis(value: datetime.datetime) -> int:
+    return (value - _epoch) // datetime.timedelta(milliseconds=1)
+
+
 def write_signed_compact_bytes(buffer: IO[bytes], value: bytes | None) -> None:
     if value is None:
         write_signed_varint(buffer, -1)
@@ -48,7 +56,7 @@ def write_record(
         write_int8(record_buffer, record.attributes)
         write_signed_varlong(
             record_buffer,
-            int(record.timestamp.timestamp() * 1000) - base_timestamp,
+            _to_millis(record.timestamp) - base_timestamp,
         )
         write_signed_varint(record_buffer, record.offset - base_offset)
         write_signed_compact_bytes(record_buffer, record.key)
@@ -120,9 +128,9 @@ def write_new_batch(buffer: IO[bytes], new_batch: NewRecordBatch) -> None:
 
     base_offset = first_record.offset
     last_offset_delta = i32(last_record.offset - base_offset)
-    base_timestamp = i64(int(first_record.timestamp.timestamp() * 1000))
+    base_timestamp = i64(_to_millis(first_record.timestamp))
     max_timestamp = i64(
-        int(1000 * max(record.timestamp for record in new_batch.records).timestamp())
+        _to_millis(max(record.timestamp for record in new_batch.records))
     )
 
     with io.BytesIO() as crc_buffer:
